@@ -946,6 +946,7 @@ func checkC09(p *Prog, r *Report) {
 	r.rule("R09.3", "Error discipline (E6) in the session packages: every call whose result contains an error has that result looked at (tested, returned, wrapped, passed on), or the call is listed with a reason in tables/err_exempt.tsv; the fmt print family is exempt as a class.")
 	ruleErrorDiscipline(p, r, "R09.3", sessionPkgs, "")
 	ruleAbortMachinery(p, r)
+	ruleHTTPStatus(p, r)
 	ruleStatusAfterSession(p, r, "R13.2")
 	ruleTruthfulStatus(p, r, "R13.5")
 	ruleFiniteWaits(p, r)
@@ -1025,4 +1026,125 @@ func controllingEdges(x *ssa.BasicBlock) []cfgEdge {
 	}
 	walk(x)
 	return out
+}
+
+// ruleHTTPStatus: R09.6 / R09.7.
+func ruleHTTPStatus(p *Prog, r *Report) {
+	r.rule("R09.6", "HTTP devices: every module function that performs a request ((*http.Client).Get/Do/PostForm) compares the StatusCode of the response with http.StatusOK and, on the mismatch edge, returns a non-nil error (so an HTTP error status stops the run).")
+	r.rule("R09.7", "PAN-OS: parseResponse returns a non-nil error unless the status attribute of the reply equals \"success\"; every reply to a change command passes through it (doCmd), so a command the device rejects is an error.")
+	n := 0
+	for _, fn := range allModFuncs(p) {
+		var reqs []*callSite
+		for _, cs := range callsOf(fn) {
+			switch cs.calleeName() {
+			case "(*net/http.Client).Get", "(*net/http.Client).Do", "(*net/http.Client).PostForm", "(*net/http.Client).Post":
+				reqs = append(reqs, cs)
+			}
+		}
+		if len(reqs) == 0 {
+			continue
+		}
+		n++
+		ok := false
+		for _, b := range fn.Blocks {
+			i := ifOf(b)
+			if i == nil {
+				continue
+			}
+			c, neg := stripNot(i.Cond)
+			bo, isB := c.(*ssa.BinOp)
+			if !isB || (bo.Op != token.NEQ && bo.Op != token.EQL) {
+				continue
+			}
+			k, isC := constInt(bo.Y)
+			if !isC || k != 200 {
+				continue
+			}
+			fp := loadedFieldPath(bo.X)
+			if len(fp) == 0 || fp[len(fp)-1] != "StatusCode" {
+				continue
+			}
+			badSucc := 0
+			if bo.Op == token.EQL {
+				badSucc = 1
+			}
+			if neg {
+				badSucc = 1 - badSucc
+			}
+			// on the mismatch edge every return carries a non-nil error
+			good := true
+			found := false
+			for _, ret := range returnsOf(fn) {
+				if edgeDominates(b, badSucc, ret.Block()) {
+					found = true
+					if !errProvablyNonNil(ret.Results[len(ret.Results)-1], ret.Block(), 0) {
+						good = false
+					}
+				}
+			}
+			if found && good {
+				ok = true
+			}
+		}
+		r.add("R09.6", "http-status-checked|"+shortName(fn), p.ipos(reqs[0].In), "the HTTP status code of the reply is compared with 200 and a mismatch is returned as error", ok,
+			"an HTTP error status (4xx/5xx) is taken as success: the run goes on and may commit")
+	}
+	r.floor("R09.6", "functions performing HTTP requests", n, 3)
+	pr := p.Fn("panos.parseResponse")
+	if pr == nil {
+		r.fail("R09.7", "anchor|panos.parseResponse", "", "not found", "")
+		return
+	}
+	ok := false
+	for _, b := range pr.Blocks {
+		i := ifOf(b)
+		if i == nil {
+			continue
+		}
+		c, neg := stripNot(i.Cond)
+		bo, isB := c.(*ssa.BinOp)
+		if !isB || (bo.Op != token.NEQ && bo.Op != token.EQL) {
+			continue
+		}
+		sv, isC := constString(bo.Y)
+		if !isC || sv != "success" {
+			continue
+		}
+		fp := loadedFieldPath(bo.X)
+		if len(fp) == 0 || fp[len(fp)-1] != "Status" {
+			continue
+		}
+		badSucc := 0
+		if bo.Op == token.EQL {
+			badSucc = 1
+		}
+		if neg {
+			badSucc = 1 - badSucc
+		}
+		for _, ret := range returnsOf(pr) {
+			if edgeDominates(b, badSucc, ret.Block()) && errProvablyNonNil(ret.Results[len(ret.Results)-1], ret.Block(), 0) {
+				ok = true
+			}
+		}
+		// and success returns only on the other edge
+		for _, ret := range successReturns(pr) {
+			if !edgeDominates(b, 1-badSucc, ret.Block()) {
+				ok = false
+			}
+		}
+	}
+	r.add("R09.7", "panos-status-success|panos.parseResponse", p.pos(pr.Pos()), "a reply whose status is not \"success\" is an error; nil error only on the success edge", ok,
+		"a command rejected by PAN-OS (status=error) is taken as accepted")
+	// every reply in ApplyCommands goes through parseResponse
+	ac := p.Fn("(*panos.State).ApplyCommands")
+	if ac != nil {
+		through := false
+		for _, cl := range ac.AnonFuncs {
+			if len(callsTo(cl, "panos.parseResponse")) > 0 && len(callsTo(cl, "(*panos.State).httpPrefixGetLog")) > 0 {
+				// the closure's success return is the parse result
+				through = true
+			}
+		}
+		r.add("R09.7", "replies-parsed|(*panos.State).ApplyCommands", p.pos(ac.Pos()), "the command helper of ApplyCommands parses every reply with parseResponse", through, "replies to change commands are not examined")
+	}
 }
